@@ -1,4 +1,5 @@
 import Driver.Wire
+import Driver.OpsConv
 import Gopki.Model.Db
 import Gopki.Spec.X509
 import Gopki.Spec.Subject
@@ -347,6 +348,9 @@ def replayRun (tz : Int) (files : List FileJ) (strat : Nat) (fault : Option Faul
   -- a plan that differs is a C11 failure; the replay continues with the implementation's plan so that the
   -- consequences for the other properties are still evaluated
   let planMismatch := mp != ip
+  -- the abstract machine of the file-level theorems, executed on the abstraction of this directory (default flags only)
+  let convPlanned : Option (List String) := if strat == 9 then convPlan s0 tz else none
+  let convMismatch := match convPlanned with | some cp => cp != ip.map (·.1) | none => false
   -- BulkUpdate, replayed in plan order
   let mut s := s0
   let mut checks : List CertCheck := []
@@ -486,8 +490,9 @@ def replayRun (tz : Int) (files : List FileJ) (strat : Nat) (fault : Option Faul
     | none => match badCheck with
       | some b => if b.clause.startsWith "C" then b.clause else ""
       | none => ""
-  let corr := corrErr && (checks.all (·.ok)) && !planMismatch
+  let corr := corrErr && (checks.all (·.ok)) && !planMismatch && !convMismatch
   let clause := if specClause != "" then specClause
+    else if convMismatch then s!"abstract machine Conv.run plans {convPlanned.getD []}, the implementation plans {ip.map (·.1)}"
     else if !corrErr then s!"BulkUpdate ended with '{implUpdate}', model expects '{expectUpdate}'"
     else match badCheck with | some b => s!"{b.alias_}: {b.clause}" | none => ""
   let _ := parseIssues
@@ -496,7 +501,7 @@ def replayRun (tz : Int) (files : List FileJ) (strat : Nat) (fault : Option Faul
            branch := s!"gen{o.plan.length}" ++ (if implUpdate != "" then ":" ++ expectUpdate else ""),
            detail := Json.mkObj [("generated", toJson generatedAliases), ("detail", match badCheck with | some b => b.detail | none => Json.null),
                                  ("modelPlan", toJson (mp.map (·.1))), ("implPlan", toJson (ip.map (·.1)))],
-           feat := Json.mkObj [("entities", ents.length), ("extensions", nExt), ("updateErr", implUpdate), ("strat", strat)],
+           feat := Json.mkObj [("entities", ents.length), ("extensions", nExt), ("updateErr", implUpdate), ("strat", strat), ("convCompared", convPlanned.isSome)],
            planned := planned, ok := implUpdate == "", allClauses := allClauses }
 
 def ranksOf (j : Json) (k : String) : String → Nat :=
